@@ -143,7 +143,7 @@ def parse_reports(text):
                     continue
                 if first is None:
                     first = (fm.group(2), '%s:%s' % (os.path.basename(fm.group(3)), fm.group(4)))
-                if '/src/' in fm.group(3) and 'harness' not in fm.group(3):
+                if re.search(r'iodine-verif[^/]*/src/[^/]+\.c$', fm.group(3)):
                     func, loc = fm.group(2), '%s:%s' % (os.path.basename(fm.group(3)), fm.group(4))
                     break
             if func == '?' and first:
@@ -212,7 +212,8 @@ def run_shard_merged(exe, cases, path, result_re, timeout):
     if len(results) < len(cases):
         if kind is None:
             kind = 'crash rc=%s' % p.returncode
-        crash = (len(results), kind, text[-3000:], pending)
+        k = text.rfind('ERROR: AddressSanitizer')
+        crash = (len(results), kind, text[k:k + 3000] if k >= 0 else text[-3000:], pending)
     return results, per_case, crash
 
 
@@ -356,7 +357,7 @@ def gen_decoder(ctx, rng, tier):
     for ty in (L.T_MX, L.T_SRV):
         for nrec in (16, 17, 18, 19, 30):
             for ln in (240, 246, 247, 250, 255):
-                add('mx-long', L.hostile_mx(vlib.rng_for(0, 'mxl%d%d%d' % (ty, nrec, ln)), 77, ord('p'), ty, nrec=nrec, namelen=ln))
+                add('mx-long', L.hostile_mx(vlib.rng_for(0, 'mxl%d%d%d' % (ty, nrec, ln)), 77, ord('p'), ty, nrec=nrec, namelen=ln, mode=0))
         for nrec in (248, 249, 250, 251, 300):
             add('mx-many', L.reply(5, ord('p'), ty, [L.rr(ty, L.mx_rdata(10 * (i + 1), L.wname(b'h' * (1 + i % 7)), srv=(ty == L.T_SRV))) for i in range(nrec)]))
         for pref in (0, 5, 10, 2480, 2490, 2495, 2500, 2510, 5000, 24990, 25000, 65530, 65535):
@@ -364,7 +365,7 @@ def gen_decoder(ctx, rng, tier):
         add('mx-announce', L.hostile_mx(rng, 9, ord('p'), ty, nrec=3, announce=0x7fff))
         add('mx-announce', L.hostile_mx(rng, 9, ord('p'), ty, nrec=3, announce=0xffff))
     # one maximal answer (model cost is quadratic in the offset: only one)
-    add('mx-64k', L.hostile_mx(vlib.rng_for(1, 'mx64k'), 3, ord('p'), L.T_MX, nrec=245, namelen=250))
+    add('mx-64k', L.hostile_mx(vlib.rng_for(1, 'mx64k'), 3, ord('p'), L.T_MX, nrec=245, namelen=250, mode=0))
     for _ in range(300 * scale):
         add('txt-chunks', L.hostile_txt(rng, rng.randrange(65536), rng.choice(b'pP0')))
     for _ in range(500 * scale):
